@@ -282,19 +282,22 @@ def same(a, b):
   return False
 
 
-def nodes(o, seen=None):
-  """Every container / ndarray / NullMap object reachable from o (each once)."""
+def nodes(o, seen=None, _visited=None):
+  """Every container / ndarray / NullMap object reachable from o (each once), added to `seen`.
+  The walk has its own visited set: objects already in `seen` may have got new children since."""
   seen = {} if seen is None else seen
-  if id(o) in seen:
+  _visited = set() if _visited is None else _visited
+  if id(o) in _visited:
     return seen
+  _visited.add(id(o))
   if is_container(o) or isinstance(o, np.ndarray) or type(o).__name__ == 'NullMap':
     seen[id(o)] = o
   if isinstance(o, dict):
     for v in o.values():
-      nodes(v, seen)
+      nodes(v, seen, _visited)
   elif isinstance(o, (list, tuple)):
     for v in o:
-      nodes(v, seen)
+      nodes(v, seen, _visited)
   return seen
 
 
@@ -682,7 +685,7 @@ def _path_objects(T, w, root, op, snap):
     allowed.add(id(cur))
     for k in p:
       kk = w.pkey(k)
-      if isinstance(kk, (T.Reserved, T.Literal)):
+      if isinstance(kk, T.Reserved):       # SELF / SKIP end the walk; a Literal is an ordinary dict key for `set`
         break
       try:
         cur = cur[kk]
